@@ -6,6 +6,7 @@ from hypothesis import strategies as st
 
 from refs import newmark_doc, ode_exact
 from vlib import util
+from vlib import defaults
 from vlib.core import Part
 
 PROPERTY = "C17"
@@ -446,4 +447,7 @@ PARTS = [
     Part("newmark_long", oracle_newmark, strategy=newmark_long_cases, quick=(4, 6), thorough=(8, 25)),
     Part("convergence", oracle_convergence, strategy=conv_cases, quick=(3, 25), thorough=(16, 100)),
     Part("stability", oracle_stability, strategy=stab_cases, quick=(2, 80), thorough=(8, 600)),
+    # documented defaults: leaving a keyword out = passing its documented value (vlib/defaults.py)
+    Part("defaults", defaults.make_oracle("C17"), enum=defaults.make_enum(), quick=(1, None), thorough=(1, None),
+         exhaustive=True),
 ]
